@@ -109,6 +109,25 @@ fn args_json<'tcx>(tcx: TyCtxt<'tcx>, args: GenericArgsRef<'tcx>, depth: u32) ->
     J::Arr(v)
 }
 
+/// Evaluate an array length that is still an unevaluated (non-generic) constant expression, e.g. the
+/// `MAX_ALLOWED_HSS_LEVELS - 1` of a field type.
+fn eval_len<'tcx>(tcx: TyCtxt<'tcx>, len: ty::Const<'tcx>) -> Option<u64> {
+    use rustc_middle::ty::TypeVisitableExt;
+    if let ty::ConstKind::Unevaluated(uv) = len.kind() {
+        if uv.args.has_param() {
+            return None;
+        }
+        let muv = mir::UnevaluatedConst { def: uv.def, args: uv.args, promoted: None };
+        if let Ok(ConstValue::Scalar(mir::interpret::Scalar::Int(si))) =
+            tcx.const_eval_resolve(TypingEnv::fully_monomorphized(), muv, rustc_span::DUMMY_SP)
+        {
+            let size = si.size();
+            return Some(si.to_bits(size) as u64);
+        }
+    }
+    None
+}
+
 fn ty_json_d<'tcx>(tcx: TyCtxt<'tcx>, t: Ty<'tcx>, depth: u32) -> J {
     let s = format!("{}", t);
     let mut o = J::obj();
@@ -131,7 +150,7 @@ fn ty_json_d<'tcx>(tcx: TyCtxt<'tcx>, t: Ty<'tcx>, depth: u32) -> J {
         ty::Array(elem, len) => {
             o.set("k", J::s("array"));
             o.set("elem", ty_json_d(tcx, *elem, depth + 1));
-            match len.try_to_target_usize(tcx) {
+            match len.try_to_target_usize(tcx).or_else(|| eval_len(tcx, *len)) {
                 Some(n) => o.set("len", J::Int(n as i128)),
                 None => {
                     o.set("len", J::Null);
